@@ -2,6 +2,7 @@ import Model.Proto
 import Model.Binary
 import Model.Bhiksha
 import Model.Quant
+import Model.TrieLM
 /-! Driver for stream `binary` (C04): prints, from counts + configuration only, the header bytes and
 every offset of the file layout in the same canonical form as harness/c04.cc prints what the real
 code computed. -/
@@ -49,8 +50,26 @@ def layoutLine (k : Kind) (cfg : Config) (stored : List Nat) (hasVocab : Bool) (
       ++ orDash (r.middles.map (fmtMiddle a)) ","
       ++ s!" longest={r.longest.1}:{r.longest.2.1}:{r.longest.2.2} end={r.stop} mapped={ll.mapped} fsize={fsize}"
 
-def step (_ : Unit) (line : String) : Unit × String :=
-  let out :=
+/-- little-endian bytes → Nat, eight bytes at a time (files of ~100 KB) -/
+def wordsOfBytes : List Nat → List Nat → List Nat
+  | [], acc => acc.reverse
+  | b0 :: b1 :: b2 :: b3 :: b4 :: b5 :: b6 :: b7 :: rest, acc =>
+    wordsOfBytes rest ((b0 + 256 * (b1 + 256 * (b2 + 256 * (b3 + 256 * (b4 + 256 * (b5 + 256 * (b6 + 256 * b7))))))) :: acc)
+  | bs, acc => (leToNat bs :: acc).reverse
+
+def natOfBytes (bs : List Nat) : Nat := (wordsOfBytes bs []).foldr (fun w acc => w + 18446744073709551616 * acc) 0
+
+def fmtChain (order : Nat) (chain : List (Option KV.TrieLM.Rec)) : String :=
+  let rec go : List (Option KV.TrieLM.Rec) → Nat → List String
+    | [], _ => []
+    | none :: _, _ => ["nf"]
+    | some r :: rest, k =>
+      (if k = 0 then s!"u:{r.probBits}:{r.backoffBits}:{r.range.1}:{r.range.2}"
+       else if k + 1 = order then s!"l:{r.probBits}"
+       else s!"m:{r.probBits}:{r.backoffBits}:{r.range.1}:{r.range.2}") :: go rest (k + 1)
+  "tq " ++ " ".intercalate (go chain 0)
+
+def stepPure (line : String) : String :=
     match words line with
     | ["hdrparse", hex] =>
       match hexToBytes hex with
@@ -119,6 +138,50 @@ def step (_ : Unit) (line : String) : Unit × String :=
       | some (bits :: reserved :: nv :: xs) => KV.Quant.driverLine bits reserved (xs.take nv) (xs.drop nv)
       | _ => "bad-op"
     | _ => "bad-op"
-  ((), out)
 
-def main : IO Unit := runDriver () step
+def step (st : Option KV.TrieLM.Trie) (line : String) : Option KV.TrieLM.Trie × String :=
+  match words line with
+  | "trieload" :: ty :: mult :: pb :: bb :: ab :: rest =>
+    -- trieload type mult pb bb ab c1 … cn hex     (stored counts, then the whole file as hex)
+    match nats [ty, mult, pb, bb, ab], rest.getLast?, nats rest.dropLast with
+    | some [ty, mult, pb, bb, ab], some hex, some counts =>
+      match kindOf ty, hexToBytes hex with
+      | some (.trie q a), some bs =>
+        let cfg : Config := { multBits := mult, probBits := pb, backoffBits := bb, bhikshaBits := ab }
+        let ll := loadLayout (.trie q a) cfg counts
+        (some (KV.TrieLM.ofLayout (natOfBytes bs) q a cfg counts ll.search), s!"ok search={ll.search} bytes={bs.length}")
+      | _, _ => (st, "bad-op")
+    | _, _, _ => (st, "bad-op")
+  | "triecheck" :: order :: toks =>
+    -- triecheck order  ids:p:b:begin:end …  (middle/unigram keys)   ids:p (longest keys); ids comma separated, reversed n-gram
+    match st, order.toNat? with
+    | some M, some order =>
+      let parsed := toks.mapM fun t =>
+        match t.splitOn ":" with
+        | [ids, p, b, bg, en] =>
+          match nats (ids.splitOn ","), p.toNat?, b.toNat?, bg.toNat?, en.toNat? with
+          | some k, some p, some b, some bg, some en =>
+            some (k, ({ prob := KV.TrieLM.f32ToRat p, backoff := KV.TrieLM.f32ToRat b, extendsLeft := bg != en,
+                        extendsRight := b != KV.TrieLM.noExtensionBits, blank := false } : KV.Table.TEntry), (bg, en))
+          | _, _, _, _, _ => none
+        | [ids, p] =>
+          match nats (ids.splitOn ","), p.toNat? with
+          | some k, some p => some (k, ({ prob := KV.TrieLM.f32ToRat p, backoff := 0, extendsLeft := false, extendsRight := false,
+                                          blank := false } : KV.Table.TEntry), (0, 0))
+          | _, _ => none
+        | _ => none
+      match parsed with
+      | some es =>
+        let ft : KV.TrieLM.FT := es.map fun e => (e.1, e.2.1)
+        let rngs := es.map fun e => (e.1, e.2.2)
+        let rng := fun g => (rngs.lookup g).getD (0, 0)
+        (st, s!"triecheck {KV.TrieLM.check KV.TrieLM.f32ToRat M ft order rng} keys={es.length}")
+      | none => (st, "bad-op")
+    | _, _ => (st, "err notrie")
+  | "trieq" :: ws =>
+    match st, nats ws with
+    | some M, some ws => (st, fmtChain M.order (KV.TrieLM.lookupChain M ws))
+    | _, _ => (st, "err notrie")
+  | _ => (st, stepPure line)
+
+def main : IO Unit := runDriver (none : Option KV.TrieLM.Trie) step
